@@ -604,17 +604,32 @@ class NPFacade:
         return real_np.prod(a, *args, **kw)
 
     # -- sorting / set
-    def unique(self, ar, axis=None, **kw):
+    def unique(self, ar, axis=None, return_index=False, **kw):
         ar_ = real_np.asarray(ar)
         if ar_.dtype == object and axis == 0 and not kw:
-            # numpy contract: sorted unique rows (lexicographic, first column primary)
-            rows = [tuple(r) for r in ar_]
-            rows = _sorted_rows(rows)
-            out = []
-            for r in rows:
-                if not out or not all(bool(a == b) for a, b in zip(r, out[-1])):
-                    out.append(r)
-            return real_np.array([list(r) for r in out], dtype=object).reshape(len(out), ar_.shape[1])
+            # numpy contract: sorted unique rows (lexicographic, first column primary); with return_index the
+            # positions of the first occurrences
+            n = len(ar_)
+
+            def cmp(i, j):
+                for a, b in zip(ar_[i], ar_[j]):
+                    if bool(a < b):
+                        return -1
+                    if bool(b < a):
+                        return 1
+                return 0
+
+            order = sorted(range(n), key=functools.cmp_to_key(cmp))  # stable: equal rows keep their original order
+            keep = []
+            for i in order:
+                if not keep or cmp(keep[-1], i) != 0:
+                    keep.append(i)
+            rows = real_np.array([list(ar_[i]) for i in keep], dtype=object).reshape(len(keep), ar_.shape[1])
+            if return_index:
+                return rows, real_np.array(keep, dtype=int)
+            return rows
+        if return_index:
+            kw["return_index"] = True
         return real_np.unique(ar, axis=axis, **kw)
 
     def lexsort(self, keys, axis=-1):
